@@ -140,11 +140,38 @@ pub fn run(prop: &str, tier: Tier) -> i32 {
         _ => panic!("no e1 scenarios for {}", prop),
     };
     let t = explore_all(&rep, scns, dfs);
-    finish_e1(rep, t, vec![], e1_assumptions())
+    let mut extra = vec![];
+    if prop == "C05" {
+        // OS-thread interleavings around the ID table (loom)
+        use crate::e2::{explore, Shape};
+        let mut lanes = vec![];
+        let plan: Vec<(Shape, Option<usize>)> = if tier == Tier::Thorough {
+            vec![(Shape::TwoAlloc, None), (Shape::TwoPlusOne, None), (Shape::AllocVsRelease, None), (Shape::AllocVsReleaseAtWrap, None), (Shape::ThreeAlloc, Some(4))]
+        } else {
+            vec![(Shape::TwoAlloc, Some(3)), (Shape::TwoPlusOne, Some(3)), (Shape::AllocVsRelease, Some(3)), (Shape::AllocVsReleaseAtWrap, Some(3)), (Shape::ThreeAlloc, Some(2))]
+        };
+        let mut total = 0u64;
+        for (shape, bound) in plan {
+            let r = explore(shape, bound);
+            total += r.executions;
+            for v in &r.violations {
+                rep.violation(&format!("ids:threads:{:?}", shape), v, json!({"engine":"e2","shape":format!("{:?}", shape),"preemption_bound":bound}));
+            }
+            lanes.push(json!({"shape": format!("{:?}", shape), "preemption_bound": bound, "executions": r.executions, "distinct_outcomes": r.distinct_outcomes, "sample_outcome": r.sample}));
+        }
+        extra.push(("loom_lanes", json!(lanes)));
+        extra.push(("loom_executions", json!(total)));
+    }
+    finish_e1(rep, t, extra, e1_assumptions())
 }
 
 /// Re-execute a replay file twice and print the observations.
 pub fn replay(v: &serde_json::Value) -> i32 {
+    if v["replay"]["engine"] == "e2" {
+        println!("{}", serde_json::to_string_pretty(&v["replay"]).unwrap());
+        println!("(loom lane: re-run ./check C05 quick; loom prints no schedule for recorded violations, the shape and bound above identify the lane)");
+        return 0;
+    }
     let scn: Scenario = serde_json::from_value(v["replay"]["scenario"].clone()).expect("scenario");
     let path: Vec<types::Action> = serde_json::from_value(v["replay"]["path"].clone()).expect("path");
     let scn = Arc::new(scn);
